@@ -16,7 +16,8 @@ law, Gillespie steps are legal events, and a tau-leap entry whose outflow makes 
 below 1e-30 under the Poisson-firings model) is not frozen; and (viii) flag provenance: the map in effect generated from
 Species.chstt (bool / per-environment dictionaries with and without "default"), edited with set_chemostat against the species
 flags, given explicitly over truthy species flags, reset or regenerated, on 2- and 3-environment grids and graphs; and
-(ix) reservoir cells (every species of a cell flagged, the other cells empty): the free neighbours are fed in every engine.
+(ix) reservoir cells (every species of a cell flagged, the other cells empty): the free neighbours are fed in every engine;
+(x) engine-object histories: the same engine object simulates map M1 then map M2 (edited in place / fresh system object).
 """
 import itertools
 import math
@@ -139,7 +140,8 @@ def _frozen_bound(spec, chem, d, dt, q):
     return bound
 
 
-def _engines(out, spec, system, seeds, dt, nsteps, gil_tmax=0.15, gil_iter=120):
+def _engines(out, spec, system, seeds, dt, nsteps, gil_tmax=0.15, gil_iter=120, engines=None):
+    """`engines`: {kind: engine object} to run on (an object that may have served before); default: a new one per run."""
     chem = spec["chemostats"]
     x0 = spec["state"]
     n = len(x0)
@@ -149,7 +151,10 @@ def _engines(out, spec, system, seeds, dt, nsteps, gil_tmax=0.15, gil_iter=120):
                 sc_ = {"system": spec, "t_sample": [0], "policy": "on_iteration", "seed": seed, "isp": "none",
                        "time_step": dt, "t_max": (nsteps * dt - dt / 2) if kind != "gillespie" else gil_tmax}
                 script = models.build_script(sc_, system=system)
-                traj, nit = eng.simulate(kind, script, max_iter=max(gil_iter, nsteps + 5))
+                if engines is not None:
+                    traj, nit = eng.run_to_completion(engines[kind], script, max_iter=max(gil_iter, nsteps + 5))
+                else:
+                    traj, nit = eng.simulate(kind, script, max_iter=max(gil_iter, nsteps + 5))
                 t, d = models.traj_arrays(traj)
             except Exception as e:
                 out.append(("C03:%s:unexpected-exception" % kind, "%s: %s" % (type(e).__name__, e)))
@@ -707,9 +712,82 @@ def check_res(case):
     return [(k, "%s: %s" % (how, w)) for k, w in out]
 
 
+# ---------------------------------------------------------------------------------------------------------------------
+# (x) engine-object histories: ONE engine object per engine kind simulates a system with map M1, then a system with the same
+# network, space and units but map M2.  The map in effect of the second run is M2.
+
+HIST_DT = 2.0 ** -5
+HIST_STEPS = 8
+HIST_MODES = ["set_chemostat", "assign", "fresh", "reset"]
+
+
+def gen_hist(tier, seed0):
+    seeds = list(range(1000 * seed0, 1000 * seed0 + (1 if tier == "quick" else 2)))
+    ns, nc = 2, 2
+    n = ns * nc
+    netname, reactions, Dc = _networks(2)[0]
+    idx = 0
+    for gtype in ("grid", "graph"):
+        for m1 in range(2 ** n):
+            for m2 in range(2 ** n):
+                if m1 == m2:
+                    continue
+                M1 = [((m1 >> q) & 1) * [1, 2, 5][q % 3] for q in range(n)]
+                M2 = [((m2 >> q) & 1) * [1, 5, 2][q % 3] for q in range(n)]
+                modes = HIST_MODES[:3] if tier == "thorough" else [HIST_MODES[idx % 3]]
+                if m2 == 0:
+                    modes = modes + ["reset"]
+                idx += 1
+                for mode in modes:
+                    spec = {"species": [{"label": "AB"[si], "D": Dc[si]} for si in range(ns)], "reactions": reactions, "envs": [""],
+                            "space": _space(gtype, nc), "state": [float(v) for v in STATE_INT[:n]], "chemostats": M1}
+                    yield {"hist": True, "mode": mode, "shape": [ns, nc], "gtype": gtype, "net": netname, "spec": spec, "M2": M2,
+                           "seeds": seeds}
+
+
+def check_hist(case):
+    out = []
+    spec1 = case["spec"]
+    spec2 = dict(spec1, chemostats=case["M2"])
+    ns, nc = case["shape"]
+    try:
+        engines = {kind: eng.make_engine(kind) for kind in eng.KINDS}
+        system = models.build_system(spec1)
+    except Exception as e:
+        return [("C03:build:unexpected-exception", "%s: %s" % (type(e).__name__, e))]
+    _engines(out, spec1, system, case["seeds"], HIST_DT, HIST_STEPS, gil_iter=24, engines=engines)
+    out = [(k, "first run on the engine objects, map %r: %s" % (spec1["chemostats"], w)) for k, w in out]
+    try:
+        mode = case["mode"]
+        if mode == "fresh":
+            system = models.build_system(spec2)
+        elif mode == "assign":
+            system.chemostats = [int(v) for v in case["M2"]]
+        elif mode == "reset":
+            system.reset_chemostats()
+        else:
+            for q in range(ns * nc):
+                if bool(case["M2"][q]) != bool(spec1["chemostats"][q]) or case["M2"][q] != spec1["chemostats"][q]:
+                    system.set_chemostat(q // nc, q % nc, case["M2"][q])
+        got = [1 if v else 0 for v in system.chemostats]
+        if got != [1 if v else 0 for v in case["M2"]]:
+            return out + [("C03:engine-history:checker:map-not-set", "%s: system.chemostats = %r, wanted %r" % (mode, got, case["M2"]))]
+    except Exception as e:
+        return out + [("C03:engine-history:edit:unexpected-exception", "%s: %s: %s" % (case["mode"], type(e).__name__, e))]
+    out2 = []
+    _engines(out2, spec2, system, case["seeds"], HIST_DT, HIST_STEPS, gil_iter=24, engines=engines)
+    how = "engine object that first simulated the same system with map %r, then (%s) map %r" % (spec1["chemostats"], case["mode"], case["M2"])
+    for k, w in out2:
+        parts = k.split(":")
+        out.append((":".join(parts[:2] + ["engine-history"] + parts[2:]), "%s: %s" % (how, w)))
+    return out
+
+
 def check_case(case):
     if case.get("wide"):
         return check_wide(case)
+    if case.get("hist"):
+        return check_hist(case)
     if case.get("res"):
         return check_res(case)
     if case.get("prov"):
@@ -828,6 +906,13 @@ def _work(job):
             for key, what in res:
                 acc.violation(key, what, case)
             continue
+        if case.get("hist"):
+            acc.add(states=1, transitions=2 * nruns + 1, traces=2 * nruns, evaluations=2 * nruns, nontrivial=1)
+            acc.count("engine_history_cases:" + case["mode"])
+            acc.count("engine_runs", 2 * nruns)
+            for key, what in res:
+                acc.violation(key, what, case)
+            continue
         if case.get("res"):
             acc.add(states=1, transitions=nruns, traces=nruns, evaluations=nruns, nontrivial=1)
             acc.count("reservoir_cases:" + case["gtype"])
@@ -877,6 +962,8 @@ def run(ctx):
     nprov = len(_CASES) - nplain - nowned - nwide
     _CASES += list(gen_res(ctx.tier, ctx.seed))
     nres = len(_CASES) - nplain - nowned - nwide - nprov
+    _CASES += list(gen_hist(ctx.tier, ctx.seed))
+    nhist = len(_CASES) - nplain - nowned - nwide - nprov - nres
     eng.so_path("plain")
     try:
         eng.so_path("probe")
@@ -885,7 +972,7 @@ def run(ctx):
     nhead = nplain + nowned
     # the wide cases are the heaviest: small chunks, started first
     jobs = [(nhead + lo, nhead + hi) for lo, hi in pool.chunks(nwide, 2)] + pool.chunks(nhead, 12)
-    jobs += [(nhead + nwide + lo, nhead + nwide + hi) for lo, hi in pool.chunks(nprov + nres, 16)]
+    jobs += [(nhead + nwide + lo, nhead + nwide + hi) for lo, hi in pool.chunks(nprov + nres + nhist, 16)]
     res = pool.pmap(_work, jobs, timeout=600)
     done = 0
     for job, r in zip(jobs, res):
@@ -913,6 +1000,12 @@ def run(ctx):
                  "species: cells alternate, one seed) (values 1, 2, 5) plus flag pairs (thorough: more pairs and all seven); apply_reaction around the flagged species; Euler %d steps "
                  "vs reference, tau-leap (flagged constant, integers, no impossible frozen entry), Gillespie 120 legal events x "
                  "seed window" % WIDE_STEPS, nwide, nwide if done == len(_CASES) else 0, exhaustive=(done == len(_CASES)))
+    ctx.subspace("engine-object histories: one engine object per kind simulates A<->B+diffusion on a 2x2 grid / 4-node graph with map "
+                 "M1, then the same network / space / units with map M2 -- every ordered pair of different flag subsets of the 2x2 "
+                 "entries (240; flag values 1, 2, 5), M2 installed by set_chemostat entry by entry / chemostats = [...] / a fresh "
+                 "system object (quick: one of the three per pair in turn; thorough: all) / reset_chemostats (M2 empty): both runs "
+                 "judged as everywhere (flagged of the map in effect bit-constant, Euler %d steps vs reference, tau-leap, <= 24 legal "
+                 "Gillespie events)" % HIST_STEPS, nhist, nhist if done == len(_CASES) else 0, exhaustive=(done == len(_CASES)))
     ctx.subspace("reservoir cells: every species of one cell flagged (values 1, 2, 5; 400 / 300 molecules, or no B), all other cells "
                  "empty and free, every D > 0; networks {A diffuses, A<->B, A<->B with an empty-B reservoir (thorough: + A decays)} x "
                  "spaces {2x1x1, 3x1x1, periodic 3x1x1, 2x2x1 grids, 2-, 3-, 4-node graphs} x each cell as the reservoir; Euler %d "
